@@ -52,12 +52,18 @@ _DROPPED = ["face_edge_connectivity", "node_face_connectivity", "edge_face_conne
 _KEPT = ["node_lon", "node_lat", "node_x", "face_lon", "face_areas", "edge_node_distances", "n_nodes_per_face",
          "face_node_connectivity", "edge_node_connectivity", "subgrid_node_indices", "subgrid_face_indices", "subgrid_edge_indices"]
 _FI = "lib('numpy.asarray', indices, dtype=INT_DTYPE)"
-contract(_SLI + "_slice_face_indices", props=["C09", "C03", "C02", "C16"],
-         params={"grid": f"obj('Grid', ds_vars={_SRC_VARS!r})", "indices": "opaque", "inclusive": "True"},
+_SUBIDX = ["subgrid_node_indices", "subgrid_face_indices", "subgrid_edge_indices"]
+for _variant, _extra in (("", []), ("source_is_itself_a_subset", _SUBIDX)):
+  contract(_SLI + "_slice_face_indices", props=["C09", "C03", "C02", "C16", "C10"], variant=_variant or None,
+         params={"grid": f"obj('Grid', ds_vars={_SRC_VARS + _extra!r})", "indices": "opaque", "inclusive": "True"},
          returns="opaque",
          ensures=[],
          asserts={"before:return Grid.from_dataset(ds, source_grid_spec=grid.source_grid_spec)":
-                  [f"assert not has(ds, '{_n}')" for _n in _DROPPED] + [f"assert has(ds, '{_n}')" for _n in _KEPT],
+                  [f"assert not has(ds, '{_n}')" for _n in _DROPPED] + [f"assert has(ds, '{_n}')" for _n in _KEPT] +
+                  # the recorded source indices are THIS selection's (also when the source grid carries those of an earlier one)
+                  ["assert same(ds['subgrid_face_indices'].data, face_indices)",
+                   "assert same(ds['subgrid_node_indices'].data, node_indices)",
+                   "assert same(ds['subgrid_edge_indices'].data, edge_indices)"],
                   # the nodes / edges carried over are determined by the corner rows / edge rows of the kept faces and nothing else
                   "before^ds = ds.isel(n_node#0": [
                       f"assert depends_only(node_indices, getitem(attr(summary('{_GG}face_node_connectivity', grid), 'values'), face_indices))",
